@@ -507,7 +507,7 @@ def build_unit(unit, outdir):
         text, toks = load(path)
         kind, name = it['kind'], it['name']
         b, e, kwi = find_item(path, kind, name, it.get('impl_of'), it.get('nth', 0))
-        item_toks = toks[b:e + 1]
+        item_toks = [Tok(t_.kind, t_.text, t_.start, t_.end) for t_ in toks[b:e + 1]]  # copies: rewrites must not touch the cached source tokens
         sha = hashlib.sha256(text[toks[b].start:toks[e].end].encode()).hexdigest()[:16]
         log = []
         rw = Rewriter(unit, it, log)
